@@ -158,7 +158,9 @@ def run(prog, ctx):
     ctx.rule("A1", "every write to a shared per-user cache file is an atomic publish: content goes to a temporary sibling and is "
                    "moved over the shared path with os.replace; never open(shared, 'w') + json.dump in place (directly or via a helper)")
     ctx.rule("A2", "every json.load of a shared cache file sits in try blocks that treat a missing or undecodable file as absent")
-    ctx.rule("A3", "no os.path.exists(shared) test guards an in-place creation of the shared file (check-then-act)")
+    ctx.rule("A3", "no os.path.exists(shared) test guards an in-place creation of the shared file (check-then-act); the shared "
+                   "directory is created with exist_ok=True or under a FileExistsError handler")
+    ctx.rule("A4", "the temporary sibling used by an atomic publish of a shared cache is process-private (pid / uuid / mkstemp)")
     shared = shared_attrs(prog)
     ctx.floor("A1", "shared cache path attributes", len(shared), 4)
     an = Analyser(prog, ctx, shared)
@@ -191,6 +193,58 @@ def run(prog, ctx):
                 reads += 1
                 ctx.ok("A2", where, "%s reads shared cache tolerantly" % q)
     ctx.floor("A1", "write sites of shared cache files", writes, 4)
+    # A4: the temporary sibling of an atomic publish must be private to the publishing process
+    for m, q, f in prog.all_functions():
+        for c in walk_no_nested(f):
+            if isinstance(c, ast.Call) and call_name(c) in ("os.replace", "os.rename") and len(c.args) == 2:
+                tmp = c.args[0]
+                params = [a.arg for a in f.args.args]
+                dst_is_param = isinstance(c.args[1], ast.Name) and c.args[1].id in params
+                # only publishers of shared caches (helpers called with a shared path) or direct shared targets
+                loc = an.shared_locals(f)
+                is_shared_pub = an.is_shared(c.args[1], loc) or (dst_is_param and any(
+                    kind == "atomic-publish" for kind, _s in an.param_effects(f, c.args[1].id)) and f.name.endswith("json_cache"))
+                if not is_shared_pub:
+                    continue
+                t = tmp
+                if isinstance(t, ast.Name):
+                    defs = [s_ for s_ in walk_no_nested(f) if isinstance(s_, ast.Assign) and src(s_.targets[0]) == t.id]
+                    t = defs[-1].value if defs else t
+                txt = src(t)
+                private = any(k in txt for k in ("os.getpid()", "uuid", "mkstemp", "NamedTemporaryFile", "mktemp", "threading.get_ident"))
+                if not private:
+                    ctx.fail("A4", c, q, "%s -> %s" % (txt, src(c.args[1])),
+                             "the temporary file of the atomic publish has the same name for every process (%s): two runs "
+                             "publishing together write into / rename away each other's temp file (FileNotFoundError or a "
+                             "half-written cache gets published)" % txt)
+                else:
+                    ctx.ok("A4", "%s:%d" % (m.rel, c.lineno), "temp sibling is process-private: %s" % txt)
+    # A3': creation of the shared directory must be race-free
+    scd = prog.func("isoquant.py", "set_configs_directory")
+    mk = [c for c in walk_no_nested(scd) if isinstance(c, ast.Call) and call_name(c) in ("os.makedirs", "os.mkdir")]
+    for c in mk:
+        ok_kw = any(k.arg == "exist_ok" and isinstance(k.value, ast.Constant) and k.value.value is True for k in c.keywords)
+        st = c
+        while not isinstance(st, ast.stmt):
+            st = st._parent
+        guarded = any("os.path.exists" in src(t) or "os.path.isdir" in src(t) for t, p in flow.guard_facts(st, stop=scd))
+        in_try = False
+        cur = st
+        while cur is not None and cur is not scd:
+            par = cur._parent
+            if isinstance(par, ast.Try) and any(cur is x for x in par.body) and any(
+                    h.type is None or "FileExistsError" in src(h.type) or "OSError" in src(h.type) for h in par.handlers):
+                in_try = True
+            cur = par
+        if not ok_kw and not in_try:
+            ctx.fail("A3", c, scd._qualname, src(st)[:100],
+                     "the shared per-user cache directory is created with a check-then-create sequence (%s): two runs starting "
+                     "together both see it missing and the second os.makedirs raises FileExistsError"
+                     % ("exists() test + makedirs" if guarded else "makedirs without exist_ok=True"))
+        else:
+            ctx.ok("A3", "isoquant.py:%d" % c.lineno, "shared directory created race-free (%s)" % ("exist_ok=True" if ok_kw else "FileExistsError handled"))
+    if not mk:
+        ctx.fail("A3", scd, scd._qualname, "makedirs", "the shared cache directory is never created")
     ctx.floor("A2", "read sites of shared cache files", reads, 7)
     ctx.extra["shared_paths"] = sorted(shared)
     ctx.assume("lost updates between two read-modify-write cycles only cost a later re-conversion and do not break the property")
